@@ -266,10 +266,10 @@ def guard_error(ctx, rule, instance, body, relpred, code=None, variant=None, cal
     return edges
 
 
-def guard_protects(ctx, rule, instance, body, relpred, sites, what='', need_dom=True):
+def guard_protects(ctx, rule, instance, body, relpred, sites, what='', need_dom=True, stop_named=False):
     """P4+edge: every protected site (block) has a guard with the stated relation that dominates it and from whose
     violating edge it is unreachable without re-evaluating the guard.  (need_dom is kept for call compatibility.)"""
-    edges = guard_edges(ctx, body, relpred)
+    edges = guard_edges(ctx, body, relpred, stop_named)
     if not edges:
         ctx.bad(rule, instance + '/guard_missing', body, body.where(), '%s: no branch with the required relation found' % what)
         return
